@@ -532,3 +532,11 @@ def shared_override_family(rng):
         body = ["spawn", kid, [["own", 0]], body]
     body = ["spawn", s_body, [], body]
     return {"cfg": {"kinds": {}, "salt": rng.randrange(1000000)}, "profile": "shared-override", "tops": [["value", body]]}
+
+
+def many_yields(n):
+    """one task that yields an already computed future n times in a row (no flush, no recursion allowed)"""
+    body = ["ret", 1]
+    for _ in range(n):
+        body = ["yld", ["f", ["own", 0]], body, ["reraise"]]
+    return ["const", 4, body]
